@@ -1,0 +1,13 @@
+//go:build !verif
+
+package freelist
+
+import "go.etcd.io/bbolt/internal/common"
+
+// Verification hooks (build tag `verif`); identity functions when off.
+
+func verifPickPid(bm pidSet, pid common.Pgid) common.Pgid { return pid }
+
+func verifPickSpan(freemaps map[uint64]pidSet, n uint64, size uint64, bm pidSet) (uint64, pidSet) {
+	return size, bm
+}
